@@ -32,6 +32,7 @@ CONSTANT Pres
 LensQuick == {0, 2, 4, 5, 9}                                \* below / at / above the width, two wraps (W = 4)
 PairsQuick == {<<2, 5>>, <<9, 0>>, <<4, 4>>}
 LensSmall == {2, 5}
+LensMid == {2, 5, 9}
 PairsSmall == {<<0, 9>>}
 LensW7 == {0, 3, 7, 8, 15}
 PairsW7 == {<<3, 8>>, <<15, 0>>, <<7, 7>>}
